@@ -348,7 +348,10 @@ func PanicFrame(stack string) string {
 		}
 		if m := frameRe.FindStringSubmatch(line); m != nil {
 			fn := m[2]
-			if i := strings.Index(fn, "("); i > 0 && !strings.HasPrefix(fn, "(") {
+			if i := strings.Index(fn, "(0x"); i > 0 {
+				fn = fn[:i]
+			}
+			if i := strings.LastIndex(fn, "("); i > 0 && !strings.HasPrefix(fn, "(") {
 				fn = fn[:i]
 			}
 			return m[1] + "." + strings.TrimSuffix(fn, "(")
